@@ -122,7 +122,7 @@ func (w *World) runPath(g *Grammar, entry, step, expr *ssa.Function, stream []to
 	ai := w.newInterp(hooks)
 	ai.MaxVisits = 3
 	ai.MaxDepth = 8
-	st := newAState()
+	st := w.initState()
 	scObj = st.externObj(g.ScannerT, nil)
 	scObj.Fields[streamPos] = aInt(0)
 	w.setToken(st, scObj, sf, stream[0])
